@@ -119,6 +119,7 @@ def run(tier, replay=None):
     run_refusal_atomic(chk, F)
     run_refusal_empty(chk, F)
     run_operator_state(chk, F)
+    run_z2_signed_fast_path(chk, F)
     run_inverse_product_width(chk, F)
     run_fresh_init(chk, F)
     run_isprime(chk, F, tier)
@@ -300,6 +301,31 @@ def run_operator_state(chk, F):
                '' if not missing else '`%s` is not exchanged: each object keeps its own table while announcing the '
                'field of the other' % '`, `'.join(missing), key='E1|%s|swap-state' % cname)
     chk.expect_count('E1-operator-state', 'friend swaps of stateful field classes', n, 3)
+
+
+def run_z2_signed_fast_path(chk, F):
+    """E4-z2-fast-path: Z2_field_element converts any integer by its parity; the shortcut "already 0 or 1" is taken for
+    0 <= e < 2 only: a condition with the upper bound alone sends every negative integer through it (-2 becomes 1)."""
+    fs = [f for f in F.functions if (f.get('clsname') or '').startswith('Z2_field_element') and
+          f['name'] == '_get_value' and f.get('body') is not None]
+    if not fs:
+        raise AnalysisBroken('C10: Z2_field_element::_get_value not found')
+    n = 0
+    for f in fs[:1]:
+        for x in ir.walk(f['body']):
+            if x.get('k') != 'ConditionalOperator' and x.get('k') != 'IfStmt':
+                continue
+            c = x['c'][0] if x.get('k') == 'ConditionalOperator' else x.get('cond')
+            t = ir.show(c).replace(' ', '')
+            if not re.search(r'<2|<=1', t):
+                continue
+            n += 1
+            ok = re.search(r'>=0|>-1|0<=', t) is not None
+            chk.ob('E4-z2-fast-path', 'Z2_field_element::_get_value takes its shortcut only for 0 <= e < 2',
+                   '%s:%s' % (rel(f['file']), x.get('l')), ok,
+                   '' if ok else '`%s` has no lower bound: a negative even integer is converted to 1' % ir.show(c)[:50],
+                   key='E4|Z2_field_element::_get_value|fast-path')
+    chk.expect_count('E4-z2-fast-path', 'range shortcuts in Z2_field_element::_get_value', n, 1)
 
 
 # ------------------------------------------------------------------ refusal of non-primes (structural)
